@@ -247,6 +247,20 @@ func (p *phaser) Phase(orfs, seqs SeqBag) (phased chan PhasedSequence, err error
 	return
 }
 
+// Result for a sequence that no reference aligns to with a positive score:
+// it is marked as removed and carries the untrimmed input sequence
+func noHitPhasedSequence(seq Sequence) PhasedSequence {
+	return PhasedSequence{
+		Err:      nil,
+		Removed:  true,
+		Position: 0,
+		NtSeq:    seq,
+		CodonSeq: seq,
+		AaSeq:    NewSequence(seq.Name(), []uint8{}, seq.Comment()),
+		Ali:      nil,
+	}
+}
+
 func (p *phaser) alignAgainstRefsAA(seq Sequence, orfsaa []Sequence) (ph PhasedSequence, err error) {
 	var bestscore float64 = .0
 	var bestratematches, bestlen float64 = .0, .0
@@ -319,6 +333,13 @@ func (p *phaser) alignAgainstRefsAA(seq Sequence, orfsaa []Sequence) (ph PhasedS
 				}
 			}
 		}
+	}
+
+	// No reference aligns with a positive score in any phase:
+	// the sequence is discarded
+	if bestseq == nil {
+		ph = noHitPhasedSequence(seq)
+		return
 	}
 
 	ph = PhasedSequence{
@@ -411,6 +432,13 @@ func (p *phaser) alignAgainstRefsNT(seq Sequence, orfs []Sequence) (ph PhasedSeq
 				}
 			}
 		}
+	}
+
+	// No reference aligns with a positive score on any strand:
+	// the sequence is discarded
+	if bestseq == nil {
+		ph = noHitPhasedSequence(seq)
+		return
 	}
 
 	phase = (3 - nbgapstart%3) % 3
